@@ -179,8 +179,10 @@ func (x *Exec) callFunction(f *Frame, st *State, fn *ssa.Function, args []Val, b
 	}
 	if x.prog.isRepoFunc(fn) {
 		// key constructors of declared families
-		if kv, ok := x.prog.keyCall(x, st, fn, args); ok {
-			return single(st, kv)
+		if !x.rawKeys {
+			if kv, ok := x.prog.keyCall(x, st, fn, args); ok {
+				return single(st, kv)
+			}
 		}
 		if c := x.prog.contractFor(fn); c != nil && !c.Inline {
 			c.used = true
